@@ -1348,6 +1348,34 @@ pub fn check_c11(ix: &Ix<'_>, v: &mut Vec<Violation>) {
     }
 }
 
+pub fn probe_c12(ix: &Ix<'_>) -> bool {
+    // a configured limit was reached
+    let cfg = &ix.out.plan.cfg;
+    let v5 = ix.ver == Ver::V5;
+    let mut running: Vec<(usize, usize, u8)> = Vec::new();
+    for e in &ix.out.hist {
+        match &e.ev {
+            Ev::GateEnter { gate, conn: 0, kind: GateKind::Publish, desc: GateDesc::Publish(seen), .. } => {
+                let size = ix.sent.iter().find(|s| matches!(&s.pkt, Some(Pkt::Publish(p)) if p.topic == seen.topic)).map_or(0, |s| remaining_len(s.len));
+                running.push((*gate, size, seen.qos));
+                let total: usize = running.iter().map(|r| r.1).sum();
+                if !v5 && cfg.max_receive != 0 && running.len() >= cfg.max_receive as usize {
+                    return true;
+                }
+                if ix.out.plan.role.is_server() && cfg.max_receive_size != 0 && total > cfg.max_receive_size {
+                    return true;
+                }
+                if v5 && cfg.max_receive != 0 && running.iter().filter(|r| r.2 > 0).count() >= cfg.max_receive as usize {
+                    return true;
+                }
+            }
+            Ev::GateExit { gate, .. } | Ev::GateDropped { gate } => running.retain(|r| r.0 != *gate),
+            _ => {}
+        }
+    }
+    false
+}
+
 pub fn probe_c11(ix: &Ix<'_>) -> bool {
     // an identifier was used by two requests in the run
     let mut seen: Vec<u16> = Vec::new();
@@ -1395,6 +1423,7 @@ pub fn check_c12(ix: &Ix<'_>, v: &mut Vec<Violation>) {
     let size_limit: usize = if ix.out.plan.role.is_server() { cfg.max_receive_size } else { 0 };
     let mut running: Vec<(usize, usize, u8)> = Vec::new(); // (gate, packet size, qos)
     let mut last_admitted = 0usize;
+    let mut count_exceeded: Option<(usize, u64)> = None;
     for e in &ix.out.hist {
         match &e.ev {
             Ev::GateEnter { gate, conn: 0, kind: GateKind::Publish, desc: GateDesc::Publish(seen), .. } => {
@@ -1406,18 +1435,36 @@ pub fn check_c12(ix: &Ix<'_>, v: &mut Vec<Violation>) {
                 running.push((*gate, size, seen.qos));
                 last_admitted = size;
                 if count_limit != 0 && running.len() > count_limit {
-                    viol(v, "C12", format!("C12/handler-count-exceeded/{role}/limit{count_limit}"), format!("{} publish handlers executing at once (max_receive {count_limit})", running.len()), e.seq);
-                    return;
+                    if count_exceeded.is_none_or(|(n, _)| running.len() > n) {
+                        count_exceeded = Some((running.len(), count_exceeded.map_or(e.seq, |c| c.1)));
+                    }
+                    continue;
                 }
                 let total: usize = running.iter().map(|r| r.1).sum();
                 if size_limit != 0 && total > size_limit + last_admitted {
                     viol(v, "C12", format!("C12/handler-bytes-exceeded/{role}"), format!("{total} packet bytes inside publish handlers, limit {size_limit} plus the last admitted packet of {last_admitted}"), e.seq);
                     return;
                 }
-                if v5 && cfg.max_receive != 0 {
+                if v5 && cfg.max_receive != 0 && seen.qos > 0 {
+                    // ids certainly reserved: QoS 1/2 handlers still running, and QoS 2 exchanges whose
+                    // PUBREL the peer has not sent yet
                     let q = running.iter().filter(|r| r.2 > 0).count();
-                    if q > cfg.max_receive as usize {
-                        viol(v, "C12", format!("C12/receive-maximum-not-enforced/{role}"), format!("{q} QoS1/2 publish handlers executing at once, advertised Receive Maximum {}", cfg.max_receive), e.seq);
+                    let awaiting_rel = ix
+                        .pub_gates(conn)
+                        .filter(|(g, p)| {
+                            p.qos == 2
+                                && matches!(g.exit, Some((xs, Outcome::Ok)) if xs < e.seq)
+                                && p.pid.is_some_and(|pid| !ix.sent.iter().any(|x| x.seq < e.seq && matches!(&x.pkt, Some(Pkt::PubRel(a)) if a.pid == pid)))
+                        })
+                        .count();
+                    if q + awaiting_rel > cfg.max_receive as usize {
+                        viol(
+                            v,
+                            "C12",
+                            format!("C12/receive-maximum-not-enforced/{role}"),
+                            format!("a QoS {} publish reached its handler with {} QoS1/2 handlers running and {awaiting_rel} QoS2 exchanges awaiting PUBREL, advertised Receive Maximum {}", seen.qos, q - 1, cfg.max_receive),
+                            e.seq,
+                        );
                         return;
                     }
                 }
@@ -1425,6 +1472,10 @@ pub fn check_c12(ix: &Ix<'_>, v: &mut Vec<Violation>) {
             Ev::GateExit { gate, .. } | Ev::GateDropped { gate } => running.retain(|r| r.0 != *gate),
             _ => {}
         }
+    }
+    if let Some((n, sq)) = count_exceeded {
+        viol(v, "C12", format!("C12/handler-count-exceeded/{role}/limit{count_limit}"), format!("{n} publish handlers executing at once (max_receive {count_limit})"), sq);
+        return;
     }
     // (2) v5 Receive Maximum: a peer within the limit is never refused, one beyond it gets 0x93
     if v5 && cfg.max_receive != 0 {
@@ -1459,7 +1510,28 @@ pub fn check_c12(ix: &Ix<'_>, v: &mut Vec<Violation>) {
                 }
             }
             Some(_) => {
-                // the exceeding publish must be refused if it was delivered and nothing else ended the connection first
+                // whether the endpoint's own count was exceeded too depends on where its handlers were:
+                // decided by the handler-entry check above
+            }
+        }
+    }
+    // (3) the limits never wedge the connection: once handlers complete, everything the peer sent is
+    // handled (including the remaining chunks of a payload streamed while the limit was reached)
+    let refused_or_stopped = ix.stops.iter().any(|s| s.1 == conn) || ix.conn_ended(conn);
+    if ix.healthy_settled(conn) && !refused_or_stopped {
+        for s in ix.sent.iter().filter(|s| s.conn == conn && !s.corrupt && s.delivered.is_some()) {
+            let Some(Pkt::Publish(p)) = &s.pkt else { continue };
+            match ix.pub_gates(conn).find(|(_, seen)| seen.topic == p.topic) {
+                None => {
+                    viol(v, "C12", format!("C12/wedged/{role}/not-handled"), format!("PUBLISH {:?} was delivered, all handlers completed, but it never reached a handler", p.topic), ix.last_seq);
+                    return;
+                }
+                Some((g, _)) => {
+                    if g.exit.is_none() {
+                        viol(v, "C12", format!("C12/wedged/{role}/handler-stuck"), format!("handler of PUBLISH {:?} ({} payload bytes) never completed although its gate was opened and the whole payload was delivered", p.topic, p.payload.len()), ix.last_seq);
+                        return;
+                    }
+                }
             }
         }
     }
